@@ -110,12 +110,13 @@ variadic, else any number larger than the length of the rest -/
 def splitsLeft (ps : List Param) (i : Nat) (seg : List Tok) : Nat :=
   if (ps.getD (ps.length - 1) default).fvar then ps.length - 1 - i else seg.length + 1
 
-/-- **`collect` = find the matching `)` + split at top-level commas.** -/
-theorem collect_spec (ps : List Param) (hv : VarLast ps) : ∀ (ts : List Tok) (i paren : Nat) (cur : List Tok)
+/-- `collect` = find the matching `)` + split at top-level commas; the `)` found does not depend on
+what follows it -/
+theorem collect_specX (ps : List Param) (hv : VarLast ps) : ∀ (ts : List Tok) (i paren : Nat) (cur : List Tok)
     (done args : List (List Tok)) (rest : List Tok), i < ps.length →
     collect ps i paren cur done ts = .ok (args, rest) →
     ∃ seg rp, ts = seg ++ rp :: rest ∧ rp.kind = .TRPAREN ∧
-      matchParen (ts.map iT) paren [] = some (seg.map hT, hT rp, rest.map iT, false) ∧
+      (∀ X : List Item, matchParen (seg.map iT ++ iT rp :: X) paren [] = some (seg.map hT, hT rp, X, false)) ∧
       args.map (·.map hT) = (done.reverse).map (·.map hT) ++
         splitTop (splitsLeft ps i seg) paren (seg.map hT) (cur.map hT) := by
   intro ts
@@ -137,7 +138,7 @@ theorem collect_spec (ps : List Param) (hv : VarLast ps) : ∀ (ts : List Tok) (
             have hrp' : t.kind = .TRPAREN := by simpa using hrp
             cases h
             refine ⟨[], t, rfl, hrp', ?_, ?_⟩
-            · simp [matchParen, iT, hT, mkH, toP, hrp', hp0]
+            · intro X; simp [matchParen, iT, hT, mkH, toP, hrp', hp0]
             · simp [splitTop, List.map_reverse]
       · rename_i hfin
         have hnr : t.kind ≠ .TRPAREN := fun hh => hfin (.inl hh)
@@ -148,13 +149,16 @@ theorem collect_spec (ps : List Param) (hv : VarLast ps) : ∀ (ts : List Tok) (
           · exact hk
         obtain ⟨seg, rp, hts, hrp, hm, ha⟩ := ih (i + 1) 0 [] (cur.reverse :: done) args rest (by omega) h
         refine ⟨t :: seg, rp, by rw [hts]; rfl, hrp, ?_, ?_⟩
-        · simp only [List.map_cons, matchParen, iT]
+        · intro X
+          simp only [List.map_cons, List.cons_append, matchParen, iT]
           have h1 : (hT t).tok.kind ≠ .TRPAREN := hnr
           have h2 : (hT t).tok.kind ≠ .TLPAREN := by
             show t.kind ≠ _; rw [hcomma.1]; decide
           simp only [h1, h2, ↓reduceIte, hp0]
-          rw [matchParen_acc, hm]
-          simp [iT]
+          have := hm X
+          simp only [iT] at this
+          rw [matchParen_acc, this]
+          simp
         · rw [ha]
           have hk1 : (hT t).tok.kind = .TCOMMA := hcomma.1
           simp only [List.reverse_cons, List.map_append, List.map_cons, List.map_nil, List.append_assoc,
@@ -179,29 +183,32 @@ theorem collect_spec (ps : List Param) (hv : VarLast ps) : ∀ (ts : List Tok) (
       obtain ⟨seg, rp, hts, hrp, hm, ha⟩ := ih i _ (t :: cur) done args rest hi h
       refine ⟨t :: seg, rp, by rw [hts]; rfl, hrp, ?_, ?_⟩
       · -- the token is not the matching parenthesis
-        simp only [List.map_cons, matchParen, iT]
+        intro X
+        have hmX := hm X
+        simp only [iT] at hmX
+        simp only [List.map_cons, List.cons_append, matchParen, iT]
         by_cases hr : t.kind = .TRPAREN
         · have h1 : (hT t).tok.kind = .TRPAREN := hr
           have hp : paren ≠ 0 := fun hp0 => hc ⟨hp0, .inl hr⟩
           have hd' : (if t.kind = Kind.TLPAREN then paren + 1 else if t.kind = Kind.TRPAREN then paren - 1 else paren)
               = paren - 1 := by simp [hr]
-          rw [hd'] at hm
+          rw [hd'] at hmX
           simp only [h1, ↓reduceIte, hp]
-          rw [matchParen_acc, hm]
-          simp [iT]
+          rw [matchParen_acc, hmX]
+          simp
         · have h1 : (hT t).tok.kind ≠ .TRPAREN := hr
           simp only [h1, ↓reduceIte]
           by_cases hl : t.kind = .TLPAREN
           · have h2 : (hT t).tok.kind = .TLPAREN := hl
-            simp only [hl, ↓reduceIte] at hm
+            simp only [hl, ↓reduceIte] at hmX
             simp only [h2, ↓reduceIte]
-            rw [matchParen_acc, hm]
-            simp [iT]
+            rw [matchParen_acc, hmX]
+            simp
           · have h2 : (hT t).tok.kind ≠ .TLPAREN := hl
-            simp only [hl, hr, ↓reduceIte] at hm
+            simp only [hl, hr, ↓reduceIte] at hmX
             simp only [h2, ↓reduceIte]
-            rw [matchParen_acc, hm]
-            simp [iT]
+            rw [matchParen_acc, hmX]
+            simp
       · rw [ha]
         congr 1
         simp only [List.map_cons]
@@ -237,5 +244,78 @@ theorem collect_spec (ps : List Param) (hv : VarLast ps) : ∀ (ts : List Tok) (
           apply splitTop_big
           · unfold splitsLeft; simp only [hsl, Bool.false_eq_true, ↓reduceIte, List.length_map, List.length_cons]; omega
           · unfold splitsLeft; simp only [hsl, Bool.false_eq_true, ↓reduceIte, List.length_map, List.length_cons]; omega
+
+/-- **`collect` = find the matching `)` + split at top-level commas.** -/
+theorem collect_spec (ps : List Param) (hv : VarLast ps) (ts : List Tok) (i paren : Nat) (cur : List Tok)
+    (done args : List (List Tok)) (rest : List Tok) (hi : i < ps.length)
+    (h : collect ps i paren cur done ts = .ok (args, rest)) :
+    ∃ seg rp, ts = seg ++ rp :: rest ∧ rp.kind = .TRPAREN ∧
+      matchParen (ts.map iT) paren [] = some (seg.map hT, hT rp, rest.map iT, false) ∧
+      args.map (·.map hT) = (done.reverse).map (·.map hT) ++
+        splitTop (splitsLeft ps i seg) paren (seg.map hT) (cur.map hT) := by
+  obtain ⟨seg, rp, h1, h2, h3, h4⟩ := collect_specX ps hv ts i paren cur done args rest hi h
+  refine ⟨seg, rp, h1, h2, ?_, h4⟩
+  rw [h1]
+  simpa using h3 (rest.map iT)
+
+
+/-- on success there is exactly one argument per parameter -/
+theorem collect_length (ps : List Param) : ∀ (ts : List Tok) (i paren : Nat) (cur : List Tok)
+    (done args : List (List Tok)) (rest : List Tok), done.length = i → i < ps.length →
+    collect ps i paren cur done ts = .ok (args, rest) → args.length = ps.length := by
+  intro ts
+  induction ts with
+  | nil => intro i paren cur done args rest _ _ h; simp [collect] at h
+  | cons t r ih =>
+    intro i paren cur done args rest hd hi h
+    unfold collect at h
+    split at h
+    · split at h
+      · split at h
+        · cases h
+        · split at h
+          · cases h
+          · cases h
+            simp only [List.length_reverse, List.length_cons, hd]
+            omega
+      · rename_i hfin
+        have : i + 1 ≠ ps.length := fun hh => hfin (.inr hh)
+        exact ih (i + 1) 0 [] _ args rest (by simp [hd]) (by omega) h
+    · exact ih i _ _ done args rest hd hi h
+
+/-- the tokens of the arguments are tokens of the list -/
+theorem collect_mem (ps : List Param) : ∀ (ts : List Tok) (i paren : Nat) (cur : List Tok)
+    (done args : List (List Tok)) (rest : List Tok),
+    collect ps i paren cur done ts = .ok (args, rest) →
+    ∀ a ∈ args, ∀ x ∈ a, x ∈ ts ∨ x ∈ cur ∨ ∃ d ∈ done, x ∈ d := by
+  intro ts
+  induction ts with
+  | nil => intro i paren cur done args rest h; simp [collect] at h
+  | cons t r ih =>
+    intro i paren cur done args rest h a ha x hx
+    unfold collect at h
+    split at h
+    · split at h
+      · split at h
+        · cases h
+        · split at h
+          · cases h
+          · cases h
+            simp only [List.mem_reverse, List.mem_cons] at ha
+            rcases ha with rfl | ha
+            · right; left; simpa using hx
+            · right; right; exact ⟨a, ha, hx⟩
+      · rcases ih _ _ _ _ args rest h a ha x hx with h1 | h1 | ⟨d, hd, hxd⟩
+        · left; exact List.mem_cons_of_mem _ h1
+        · cases h1
+        · rcases List.mem_cons.mp hd with rfl | hd
+          · right; left; simpa using hxd
+          · right; right; exact ⟨d, hd, hxd⟩
+    · rcases ih _ _ _ _ args rest h a ha x hx with h1 | h1 | h1
+      · left; exact List.mem_cons_of_mem _ h1
+      · rcases List.mem_cons.mp h1 with rfl | h1
+        · left; exact List.mem_cons_self ..
+        · right; left; exact h1
+      · right; right; exact h1
 
 end CprocVerif.PP
